@@ -49,7 +49,8 @@ static inline uint8_t summary_entry_size(struct jls_core_fsr_s * self) {
 }
 
 int32_t jls_core_fsr_sample_buffer_alloc(struct jls_core_fsr_s * self) {
-    size_t sample_buffer_sz = sizeof(struct jls_payload_header_s) + (sample_size_bits(self) * self->parent->signal_def.samples_per_data) / 8;
+    size_t sample_buffer_sz = sizeof(struct jls_payload_header_s)
+            + (((size_t) sample_size_bits(self)) * self->parent->signal_def.samples_per_data) / 8;  // 64-bit: the product can exceed 2^32
     self->data = malloc(sample_buffer_sz);
     if (!self->data) {
         jls_fsr_close(self);
